@@ -1,4 +1,6 @@
 """C04 — references deliver the configurable or a fresh result, in the right scope."""
+import os
+
 from harness import common as C
 from harness import ginm
 from harness.common import T
@@ -284,4 +286,333 @@ class RefShapesEngine(Engine):
     return {'obs': T('Done'), 'fails': fails[:3], 'nontrivial': nontrivial, 'tags': [case['shape']]}
 
 
-ENGINES = [RefEngine(), RefShapesEngine()]
+E, H = '<E>', '<H>'         # an evaluated reference '@…make()' / an unevaluated one '@…make' inside a form
+
+
+class RefParseEngine(Engine):
+  """The same references, reaching the store through every way of PARSING a config.  The property quantifies over binding
+  values, not over how the text was read: '@s1/s3/make()' written in a string, a list of lines, a file, a file plus a list of
+  bindings or an included file, parsed with skip_unknown omitted / False / True / a list, tuple or set of names (skip_unknown
+  only concerns names nobody registered: here `ghost`, bound in a statement of its own and / or referenced by a parameter the
+  caller always supplies), is a reference to the REGISTERED configurable make and must be delivered like any other.
+  Reference scopes of depth 0-3, the selector spelled `make`, `refmod.make` or `pkg.refmod.make`, evaluated and unevaluated
+  references mixed inside lists / tuples / dict values; make.tag bound under some of the scopes.
+  From the property text: every evaluated occurrence in the binding of a parameter the caller does not supply is delivered as
+  its own fresh result of make, run under the scope written in the reference or else the scope active at the consuming call
+  (and so with the tag bound for that scope); every unevaluated occurrence is delivered as a callable that has not run and
+  that, whenever called later, runs make under exactly the written scope (unscoped: it is the configurable itself and runs
+  under whatever scope is active then); nothing else runs; supplied parameters arrive unchanged and their references do not
+  run; mutation of everything received changes neither the next call nor query_parameter nor config_str.
+  Implementation only (the model's input language has statements, not parse entry points)."""
+  name = 'ref-parse-modes'
+  model = False
+  FORMS = {
+      'bare': E,
+      'handle': H,
+      'list': [E, 1],
+      'nested': ({'k': [E]}, E),
+      'mixed': {'k': (E, [H]), 'j': [E]},
+      'handles': [H, (H,)],
+  }
+  REF_SCOPES = ['', 's2', 's1/s3', 's2/s1', 's1/s3/s2', 's3/s3']
+  SPELLINGS = ['make', 'refmod.make', 'pkg.refmod.make']
+  ENTRIES = ['string', 'lines', 'file', 'files_bindings', 'include']
+  SKIPS = [None, False, True, ['list', ['ghost']], ['tuple', ['ghost', 'make']], ['set', ['ghost', 'pkg.refmod.make']],
+           ['list', []]]
+
+  def budget(self, tier):
+    return 150 if tier == 'quick' else 4000
+
+  def corpus(self):
+    out = []
+    for skip, ghost in ((True, ['stmt']), (True, []), (['list', ['ghost']], ['stmt', 'ref']), (None, []), (False, [])):
+      for entry in ('string', 'file', 'include'):
+        out.append({'entry': entry, 'skip': skip, 'ghost': ghost, 'spelling': 'make', 'params': ['a', 'b', 'c'],
+                    'active': ['s9'], 'npos': 0, 'kw': [], 'tags': ['s1', 's1/s3', 's2'],
+                    'binds': [['a', 'list', 's2'], ['b', 'mixed', 's1/s3'], ['c', 'handle', 's1/s3/s2']]})
+    out.append({'entry': 'files_bindings', 'skip': True, 'ghost': ['stmt', 'ref'], 'spelling': 'pkg.refmod.make',
+                'params': ['a', 'b'], 'active': [], 'npos': 1, 'kw': [], 'tags': ['s2/s1'],
+                'binds': [['a', 'bare', 's1/s3'], ['b', 'nested', 's2/s1']]})
+    out.append({'entry': 'lines', 'skip': ['set', ['ghost', 'pkg.refmod.make']], 'ghost': ['ref'], 'spelling': 'refmod.make',
+                'params': ['a', 'b'], 'active': ['s1', 's2'], 'npos': 0, 'kw': ['b'], 'tags': [''],
+                'binds': [['a', 'handles', 's3/s3'], ['b', 'bare', 's1/s3/s2']]})
+    return out
+
+  def gen(self, rng, tier):
+    params = list(rng.choice([['a', 'b', 'c'], ['a', 'b'], ['x']]))
+    npos = rng.choice([0, 0, 1, len(params)])
+    skip = rng.choice(self.SKIPS)
+    covers = skip is True or (isinstance(skip, list) and 'ghost' in skip[1])
+    return {'entry': rng.choice(self.ENTRIES), 'skip': skip,
+            'ghost': [g for g in ('stmt', 'ref') if covers and rng.random() < 0.6],
+            'spelling': rng.choice(self.SPELLINGS), 'params': params, 'active': ginm.gen_scope(rng, 2), 'npos': npos,
+            'kw': [p for p in params[npos:] if rng.random() < 0.25],
+            'tags': sorted(set(rng.choice(['', 's1', 's2', 's1/s3', 's2/s1', 's1/s3/s2', 's3']) for _ in range(rng.randint(0, 3)))),
+            'binds': [[p, rng.choice(sorted(self.FORMS)), rng.choice(self.REF_SCOPES)] for p in params if rng.random() < 0.85]}
+
+  def shrink(self, case):
+    def but(**kw):
+      c = dict(case)
+      c.update(kw)
+      return c
+    for i in range(len(case['binds'])):
+      yield but(binds=case['binds'][:i] + case['binds'][i + 1:])
+    for i in range(len(case['tags'])):
+      yield but(tags=case['tags'][:i] + case['tags'][i + 1:])
+    for i in range(len(case['ghost'])):
+      yield but(ghost=case['ghost'][:i] + case['ghost'][i + 1:])
+    if case['entry'] != 'string':
+      yield but(entry='string')
+    if case['active']:
+      yield but(active=case['active'][1:])
+    if case['kw']:
+      yield but(kw=case['kw'][1:])
+    if case['npos']:
+      yield but(npos=case['npos'] - 1)
+    if case['spelling'] != 'make':
+      yield but(spelling='make')
+    for i, (p, form, rs) in enumerate(case['binds']):
+      for f2 in ('bare', 'handle'):
+        if form not in ('bare', 'handle'):
+          yield but(binds=case['binds'][:i] + [[p, f2, rs]] + case['binds'][i + 1:])
+      if rs.count('/') > 1:
+        yield but(binds=case['binds'][:i] + [[p, form, rs.split('/', 1)[1]]] + case['binds'][i + 1:])
+
+  @classmethod
+  def render(cls, v, ref):
+    if v == E:
+      return '@%s()' % ref
+    if v == H:
+      return '@%s' % ref
+    if isinstance(v, list):
+      return '[%s]' % ', '.join(cls.render(x, ref) for x in v)
+    if isinstance(v, tuple):
+      return '(%s,)' % ', '.join(cls.render(x, ref) for x in v)
+    if isinstance(v, dict):
+      return '{%s}' % ', '.join('%r: %s' % (k, cls.render(x, ref)) for k, x in v.items())
+    return repr(v)
+
+  @classmethod
+  def occurrences(cls, v, which):
+    if v == which:
+      yield v
+    elif isinstance(v, (list, tuple)):
+      for x in v:
+        yield from cls.occurrences(x, which)
+    elif isinstance(v, dict):
+      for x in v.values():
+        yield from cls.occurrences(x, which)
+
+  def impl(self, case):
+    import shutil
+    import tempfile
+    gin = C.fresh_gin()
+    runs = []
+
+    class Res(object):
+      def __init__(self, scope, tag):
+        self.scope, self.tag, self.marks = scope, tag, []
+
+      def __repr__(self):
+        return 'Res(scope=%r, tag=%r)' % (self.scope, self.tag)
+
+    def make(tag='untagged'):
+      r = Res(gin.current_scope_str(), tag)
+      runs.append(r)
+      return r
+    make_cfg = gin.configurable('make', module='pkg.refmod')(make)
+    params = case['params'] + ['z']
+
+    def consumer(**kw):
+      return kw
+    consumer.__signature__ = None
+    ns = {}
+    exec('def consumer(%s):\n  return dict(%s)\n' % (', '.join('%s="unset"' % p for p in params),      # pylint: disable=exec-used
+                                                    ', '.join('%s=%s' % (p, p) for p in params)), ns)
+    call = gin.configurable('consumer', module='pkg.usermod')(ns['consumer'])
+
+    def ref_text(rs):
+      return (rs + '/' if rs else '') + case['spelling']
+
+    def want_tag(scope):
+      parts = scope.split('/') if scope else []
+      for n in range(len(parts), -1, -1):       # the most specific enclosing scope that binds make.tag
+        if '/'.join(parts[:n]) in case['tags']:
+          return 'T:' + '/'.join(parts[:n])
+      return 'untagged'
+
+    tag_lines = ['%smake.tag = %r' % (t + '/' if t else '', 'T:' + t) for t in case['tags']]
+    ghost_lines = ['ghost.learning_rate = 0.1', 's1/pkg.ghost.decay = [1, 2]'] if 'stmt' in case['ghost'] else []
+    bind_lines = ['consumer.%s = %s' % (p, self.render(self.FORMS[form], ref_text(rs))) for p, form, rs in case['binds']]
+    if 'ref' in case['ghost']:
+      bind_lines.append("consumer.z = [@s1/s3/ghost(), {'k': @ghost}]")
+    kw = {}
+    sk = case['skip']
+    if sk is not None:
+      kw['skip_unknown'] = sk if isinstance(sk, bool) else {'list': list, 'tuple': tuple, 'set': set}[sk[0]](sk[1])
+    text = '\n'.join(ghost_lines[:1] + tag_lines + ghost_lines[1:] + bind_lines) + '\n'
+    what = 'entry=%s skip_unknown=%r text %r' % (case['entry'], sk, text)
+    tmp = None
+    try:
+      try:
+        if case['entry'] == 'string':
+          gin.parse_config(text, **kw)
+        elif case['entry'] == 'lines':
+          gin.parse_config(text.splitlines(), **kw)
+        else:
+          tmp = tempfile.mkdtemp(prefix='ginverif_c04_')
+          path = os.path.join(tmp, 'refs.gin')
+          if case['entry'] == 'file':
+            with open(path, 'w') as f:
+              f.write(text)
+            gin.parse_config_file(path, **kw)
+          elif case['entry'] == 'files_bindings':
+            with open(path, 'w') as f:
+              f.write('\n'.join(ghost_lines[:1] + tag_lines) + '\n')
+            gin.parse_config_files_and_bindings([path], ghost_lines[1:] + bind_lines, finalize_config=False, **kw)
+          else:
+            with open(path, 'w') as f:
+              f.write(text)
+            outer = os.path.join(tmp, 'outer.gin')
+            with open(outer, 'w') as f:
+              f.write('include %r\n' % path)
+            gin.parse_config_file(outer, **kw)
+      except Exception as e:  # pylint: disable=broad-except
+        return {'obs': T('Done'), 'nontrivial': False, 'tags': [case['entry']],
+                'fails': [('parse-of-known-references-raised', '%s: every name but ghost is registered and skip_unknown covers '
+                           'ghost, yet parsing raised %s: %s' % (what, type(e).__name__, str(e).splitlines()[0][:200]))]}
+    finally:
+      if tmp:
+        shutil.rmtree(tmp, ignore_errors=True)
+
+    def snapshot():
+      return (gin.config_str(), [repr(gin.query_parameter('consumer.' + p)) for p, _, _ in case['binds']])
+    before = snapshot()
+    args = ['pos:%d' % i for i in range(case['npos'])]
+    kwargs = {p: 'kw:' + p for p in case['kw']}
+    kwargs['z'] = 'kw:z'            # z (possibly bound to references to the unknown ghost) is always supplied by the caller
+    supplied = set(case['params'][:case['npos']]) | set(kwargs)
+    ambient = '/'.join(case['active'])
+    what += ' consumer called with args=%r kwargs=%r under scope %r' % (args, kwargs, ambient)
+    fails = []
+
+    def match(form, d, rs, path, results, handles):
+      """delivery shape; collects the delivered results / handles with the scope their occurrence was written with"""
+      if form == E:
+        if not isinstance(d, Res):
+          return '%s: an evaluated reference was delivered as %r' % (path, d)
+        results.append((d, rs, path))
+      elif form == H:
+        if isinstance(d, Res) or not callable(d):
+          return '%s: an unevaluated reference was delivered as %r' % (path, d)
+        handles.append((d, rs, path))
+      elif isinstance(form, (list, tuple)):
+        if type(d) is not type(form) or len(d) != len(form):
+          return '%s: %r was delivered as %r' % (path, form, d)
+        for i, (f, x) in enumerate(zip(form, d)):
+          m = match(f, x, rs, '%s[%d]' % (path, i), results, handles)
+          if m:
+            return m
+      elif isinstance(form, dict):
+        if type(d) is not dict or list(d) != list(form):
+          return '%s: %r was delivered as %r' % (path, form, d)
+        for k in form:
+          m = match(form[k], d[k], rs, '%s[%r]' % (path, k), results, handles)
+          if m:
+            return m
+      elif d != form or type(d) is not type(form):
+        return '%s: %r was delivered as %r' % (path, form, d)
+      return None
+
+    def scribble(d):
+      if isinstance(d, Res):
+        d.marks.append('mutated')
+      elif isinstance(d, (list, tuple)):
+        for x in d:
+          scribble(x)
+        if isinstance(d, list):
+          d.append('mutated')
+          d[0] = 'mutated'
+      elif isinstance(d, dict):
+        for x in list(d.values()):
+          scribble(x)
+        d.clear()
+        d['mutated'] = True
+
+    all_results = []
+    for nth in (1, 2):                 # twice: a fresh result each time the consumer is called
+      del runs[:]
+      try:
+        with gin.config_scope(list(case['active']) or None):
+          got = call(*args, **kwargs)
+      except Exception as e:  # pylint: disable=broad-except
+        fails.append(('consumer-call-raised', '%s (call %d) raised %s: %s' % (
+            what, nth, type(e).__name__, str(e).splitlines()[0][:200])))
+        break
+      during = list(runs)
+      results, handles = [], []
+      for i, p in enumerate(params):
+        if p in supplied:
+          want = 'pos:%d' % i if i < case['npos'] else 'kw:' + p
+          if got[p] != want:
+            fails.append(('caller-value-not-delivered', '%s: %r received %r' % (what, p, got[p])))
+      for p, form, rs in case['binds']:
+        if p in supplied:
+          continue
+        m = match(self.FORMS[form], got[p], rs, p, results, handles)
+        if m:
+          fails.append(('wrong-delivery', '%s (call %d): %s' % (what, nth, m)))
+      if fails:
+        break
+      # every evaluated occurrence: its own result, of a run made during THIS call, under the written scope or else the ambient
+      if len(set(id(r) for r, _, _ in results)) != len(results) or any(r is o for r, _, _ in results for o in all_results):
+        fails.append(('result-not-fresh', '%s (call %d): two evaluated references received the same result object: %r' %
+                      (what, nth, [(path, r) for r, _, path in results])))
+      for r, rs, path in results:
+        ws = rs or ambient
+        if (r.scope, r.tag) != (ws, want_tag(ws)) or r.marks:
+          fails.append(('reference-run-in-wrong-scope', '%s (call %d): %s received %r%s; the property requires a fresh result of '
+                        'make run under scope %r (tag %r)' % (what, nth, path, r, ' already mutated' if r.marks else '', ws, want_tag(ws))))
+      if sorted(id(r) for r in during) != sorted(id(r) for r, _, _ in results):
+        kind = 'overridden-reference-still-called' if len(during) > len(results) and any(p in supplied for p, _, _ in case['binds']) \
+            else 'reference-evaluation-sequence'
+        fails.append((kind, '%s (call %d): make ran %r, but the evaluated references of the parameters the caller did not supply '
+                      '(%r) are %r' % (what, nth, during, sorted(supplied), [path for _, _, path in results])))
+      all_results += [r for r, _, _ in results]
+      # every unevaluated occurrence: a callable which, whenever called, runs make once under exactly the written scope
+      for h, rs, path in handles:
+        if not rs and h is not make_cfg:
+          fails.append(('wrong-delivery', '%s (call %d): %s is bound to the unscoped @%s and received %r, not the configurable '
+                        'itself' % (what, nth, path, case['spelling'], h)))
+          continue
+        for later in ('', 'late/r'):
+          del runs[:]
+          try:
+            with gin.config_scope(later or None):
+              r = h()
+          except Exception as e:  # pylint: disable=broad-except
+            fails.append(('delivered-configurable-raised', '%s (call %d): calling what %s received under scope %r raised %s: %s' %
+                          (what, nth, path, later, type(e).__name__, str(e).splitlines()[0][:200])))
+            break
+          ws = rs or later
+          if not isinstance(r, Res) or len(runs) != 1 or runs[0] is not r or (r.scope, r.tag) != (ws, want_tag(ws)):
+            fails.append(('reference-run-in-wrong-scope', '%s (call %d): calling what %s received under scope %r returned %r '
+                          '(runs %r); the property requires one run of make under %r (tag %r)' %
+                          (what, nth, path, later, r, runs, ws, want_tag(ws))))
+      # the consumer scribbles on everything it received
+      for p, _, _ in case['binds']:
+        if p not in supplied:
+          scribble(got[p])
+      after = snapshot()
+      if after != before:
+        fails.append(('store-changed-by-call', '%s: config_str / query_parameter changed from %r to %r' % (what, before, after)))
+      if fails:
+        break
+    live = [(form, rs) for p, form, rs in case['binds'] if p not in supplied]
+    nontrivial = (bool(kw.get('skip_unknown')) or case['entry'] != 'string') and any(rs for _, rs in live)
+    return {'obs': T('Done'), 'fails': fails[:3], 'nontrivial': nontrivial,
+            'tags': [case['entry'], 'skip=%s' % (sk if isinstance(sk, bool) or sk is None else sk[0]),
+                     'depth%d' % max([0] + [len(rs.split('/')) for _, rs in live if rs])]}
+
+
+ENGINES = [RefEngine(), RefShapesEngine(), RefParseEngine()]
